@@ -24,6 +24,14 @@ class ToolError(Exception):
     pass
 
 
+class ProcessDied(Exception):
+    """the process that runs the code under test died (signal / abort / unwinding out of main):
+    that is an observation about the code under test, not a tool problem"""
+    def __init__(self, args_, rc, out):
+        super().__init__(f"harness {' '.join(args_)} died with status {rc}")
+        self.args_, self.rc, self.out = args_, rc, out
+
+
 def log(*a):
     print(*a, flush=True)
 
@@ -310,6 +318,8 @@ def run_harness(args, timeout=900):
     scratch = os.path.join(WORK, "scratch")
     os.makedirs(scratch, exist_ok=True)
     rc, out = sh([os.path.join(HARNESS, "target", "debug", "wbverif"), *args], timeout=timeout, env={"WBVERIF_SCRATCH": scratch})
+    if rc < 0 or rc in (101, 134, 139):
+        raise ProcessDied(args, rc, out)
     if rc != 0:
         raise ToolError(f"harness {' '.join(args)} failed ({rc}):\n{out[-3000:]}")
     return out
